@@ -191,9 +191,180 @@ def quote_case(rng, maxlen):
     return line + tail
 
 
+# ---- re-parsing tag extensions: ParseUniq.create_ref/_poem/_gallery/_pages/_imagemap (core.py) parse their body with a NESTED parse_txt,
+# ref/poem/gallery after expanding it with the article's expander, <pages> after transcluding other pages.  A page of the wiki database
+# whose body contains such a tag around a call that leads back to the page recurses through the database; only the nesting counter of
+# parse_txt (MAX_PARSE_DEPTH) stops it.  The family below closes a cycle of 1..3 pages through EVERY such tag (and #tag / plain calls).
+def rpage_call(k):
+    return "{{Page:R/%d}}" % k
+
+
+# (name, recursing?, body around a call of page k).  <pages> transcludes Page:R/k (sites with a Page namespace) or R/k (others) by number.
+REPARSE_WRAPPERS = [
+    ("ref", True, lambda k: "<ref>%s</ref>" % rpage_call(k)),
+    ("poem", True, lambda k: "<poem>\n%s\n</poem>" % rpage_call(k)),
+    ("gallery", True, lambda k: "<gallery>\nImage:x.jpg|%s\n</gallery>" % rpage_call(k)),
+    ("pages", True, lambda k: '<pages index="R" from=%d to=%d />' % (k, k)),
+    ("pages-by-title", True, lambda k: '<pages from="R/%d" to="R/%d" />' % (k, k)),
+    ("tagfn-ref", True, lambda k: "{{#tag:ref|%s}}" % rpage_call(k)),
+    ("tagfn-poem", True, lambda k: "{{#tag:poem|%s}}" % rpage_call(k)),
+    ("tagfn-pages", True, lambda k: "{{#tag:pages||index=R|from=%d|to=%d}}" % (k, k)),
+    ("call", True, lambda k: rpage_call(k)),
+    ("gallery-line", True, lambda k: "<gallery>\n%s\n</gallery>" % rpage_call(k)),
+    ("imagemap", False, lambda k: "<imagemap>\nImage:x.jpg|%s\nrect 0 0 1 1 [[A]]\n</imagemap>" % rpage_call(k)),
+    ("rot13", False, lambda k: "<rot13>%s</rot13>" % rpage_call(k)),
+    ("nowiki", False, lambda k: "<nowiki>%s</nowiki>" % rpage_call(k)),
+    ("refname", True, lambda k: '<ref name="n%d">%s</ref>' % (k, rpage_call(k))),
+]
+
+
+def reparse_universe(bodies):
+    """pages R/1..R/n with the given bodies, reachable as Page:R/k (template call, <pages> on sites with a Page namespace) and R/k"""
+    db = {}
+    for i, b in enumerate(bodies):
+        db["Page:R/%d" % (i + 1)] = b
+        db["R/%d" % (i + 1)] = b
+    return db
+
+
+def reparse_family():
+    """deterministic: (raw, db) for every cycle of length 1 through every wrapper (article enters it through the same wrapper or by a plain
+    call), every ordered pair of recursing wrappers as a 2-cycle, and 3-cycles over rotating triples"""
+    out = []
+    rec = [w for w in REPARSE_WRAPPERS if w[1]]
+    for name, _r, w in REPARSE_WRAPPERS:
+        db = reparse_universe(["a " + w(1) + " b\n"])
+        out.append(("intro\n\n" + w(1) + "\n\noutro\n", db))
+        out.append((rpage_call(1), db))
+    for _n1, _r1, w1 in rec:
+        for _n2, _r2, w2 in rec:
+            db = reparse_universe(["ping " + w1(2) + "\n", "pong " + w2(1) + "\n"])
+            out.append((w2(1), db))
+    for i in range(len(rec)):
+        w1, w2, w3 = rec[i][2], rec[(i + 3) % len(rec)][2], rec[(2 * i + 1) % len(rec)][2]
+        db = reparse_universe(["x " + w1(2), "* y " + w2(3) + "\n", "{|\n| z " + w3(1) + "\n|}\n"])
+        out.append(("== h ==\n" + w3(1), db))
+    return out
+
+
+def reparse_case(rng, size, fanout=1):
+    """random wiki of 1..4 pages; every page calls the next page of the cycle through a random wrapper (fan-out 1: one recursive edge per
+    page, so the work is linear in the depth bound) amid grammar text; the article enters the cycle through a random wrapper."""
+    n = rng.randint(1, 4)
+    rec = [w for w in REPARSE_WRAPPERS if w[1]]
+    bodies = []
+    for i in range(n):
+        nxt = (i + 1) % n + 1 if rng.random() < 0.8 else rng.randint(1, n)
+        parts = [inline(rng, 30, size // 8), rng.choice(rec)[2](nxt), inline(rng, 30, size // 8)]
+        for _ in range(fanout - 1):
+            parts.insert(1, rng.choice(rec)[2](nxt))
+        if rng.random() < 0.3:
+            parts.insert(0, rng.choice(["* ", "; ", "{|\n| ", "== h ==\n", " ", "<div>"]))
+        if rng.random() < 0.3:
+            parts.append(rng.choice(REPARSE_WRAPPERS)[2](rng.randint(1, n + 1)) if fanout > 1 else rng.choice([w for w in REPARSE_WRAPPERS if not w[1]])[2](nxt))
+        bodies.append(rng.choice(["", "\n"]).join(parts))
+    raw = inline(rng, 30, size // 6) + rng.choice(["", "\n", "\n\n"]) + rng.choice(REPARSE_WRAPPERS)[2](rng.randint(1, n)) + rng.choice(["", "\n", " x"])
+    return raw, reparse_universe(bodies)
+
+
+# cycles through every re-parsing tag for the random kinds ({{rec}}, <pages index=I ..>, <pages index=X ..> occur in the alphabet)
+TEMPLATE_UNIVERSES.append(
+    {"a": "<poem>\n{{rec}}\n</poem>", "b": "<gallery>\nImage:x.jpg|{{{1}}} {{rec}}\n</gallery>", "c": "{{#tag:ref|{{c|{{{1|}}}}}}}", "d": "<pages index=I from=2 to=2 />",
+     "e": "<ref>{{e|{{{1}}}}}</ref>", "rec": "<poem>\n{{rec}}\n</poem>",
+     "Page:I/1": "p1 <pages index=I from=1 to=1 />", "I/1": "p1 <pages index=I from=1 to=1 />", "Page:I/2": "<gallery>\nImage:x.jpg|{{d}}\n</gallery>",
+     "I/2": "<gallery>\nImage:x.jpg|{{d}}\n</gallery>", "Page:X/1": "<pages index=X from=2 to=2 />", "X/1": "<pages index=X from=2 to=2 />",
+     "Page:X/2": "<ref><pages index=X from=3 to=3 /> {{Page:X/1}}</ref>", "X/2": "<ref><pages index=X from=3 to=3 /> {{Page:X/1}}</ref>", "Page:X/3": "x3", "X/3": "x3"})
+
 for _u in TEMPLATE_UNIVERSES:
     if _u is not None:
         _u["q5"] = "'" * 5
+
+
+# ---- long digit strings: Python >= 3.11 refuses int(str) / str(int) beyond 4300 digits with ValueError (sys.set_int_max_str_digits), so every
+# conversion of a digit string taken from the input is a place where a parse can abort.  The family puts a long digit string at EVERY numeric
+# position: each maximal ASCII digit run of each construct in the pool below (attribute values, image options, imagemap coordinates, gallery
+# attributes, <pages> ranges, table spans, list starts, entities, magic links, timeline scripts, parser-function and template arguments) is
+# replaced, one position at a time.
+INT_MAX_STR_DIGITS = 4300
+_DIGITS_RE = re.compile(r"[0-9]+")
+
+LONGDIGIT_EXTRA = [
+    "<imagemap>\nImage:a.png|100px\nrect 1 2 3 4 [[x]]\ncircle 5 6 7 [[y]]\npoly 1 2 3 4 5 6 [[z]]\ndefault [[d]]\n</imagemap>",
+    "<imagemap>\nImage:a.png\nrect 1 1 1 1 [[x]]\n</imagemap>",
+    "<gallery widths=120 heights=90 perrow=3 caption=1>\nImage:x.jpg|100px|c\n</gallery>", '<gallery widths="120px" heights="90px" perrow="3">\nImage:x.jpg\n</gallery>',
+    "[[File:x.png|100px]]", "[[File:x.png|100x200px]]", "[[File:x.png|x200px]]", "[[File:x.png|thumb|upright=1.5|100px|c]]", "[[File:x.png|page=2|100px]]",
+    "[[Image:x.png|thumb|1|2]]", "{|\n|-\n| colspan=2 rowspan=3 | c\n! colspan=\"2\" | h\n|}", "{| border=1 cellpadding=2 width=50%\n|+ c\n|-\n| x\n|}",
+    "<table border=1><tr><td colspan=2 rowspan=3 width=10>x</td></tr></table>", "<ol start=3><li value=4>x</li></ol>", "<ul><li value=\"4\">x</ul>",
+    "<font size=3>x</font>", "<font size=\"+1\">x</font>", "<h2 id=1>x</h2>", "<div style=\"width:100px;margin:1em\">x</div>", "<br clear=1 />", "<hr width=50>",
+    '<pages index="I" from=1 to=2 />', '<pages index=I from="1" to="2" fromsection=1 tosection=2 step=1 />', '<pages from=1 to=2 />',
+    "<timeline>\nImageSize = width:100 height:50\nPeriod = from:1 till:10\nScaleMajor = unit:year increment:5 start:1\nPlotData=\n bar:a from:1 till:2 width:3\n</timeline>",
+    "<ref name=1 group=2>x</ref><references group=2 />", "<references responsive=1 colwidth=30em />", "<source lang=c line start=5 highlight=2>x</source>",
+    "<syntaxhighlight lang=c line=1 start=5>x</syntaxhighlight>", "<poem style=1>\n x\n</poem>", "<math display=1>x^2</math>", "<hiero>1</hiero>",
+    "<section begin=1 /><section end=1 />", "<categorytree depth=2>K</categorytree>", "<inputbox>\nwidth=10\n</inputbox>", "<mapframe width=100 height=50 zoom=3 />",
+    "&#65;", "&#x41;", "&#065;", "ISBN 3161484100", "ISBN 3-16-148410-0", "RFC 123", "PMID 123", "# 1\n# 2\n#:3", "== 1 ==", "=1=", "1", "0.5", "1e5", "-1", "1,000.5",
+    "http://x.org:80/1", "[http://x.org/1 2]", "[[1]]", "[[A#1|2]]", "[[:Category:1]]", "[[en:1]]", "{{{1}}}", "{{{1|2}}}", "{{b|1}}", "{{c|1=2|n=3}}", "{{b|1=2}}",
+    "{{#expr:1+2}}", "{{#expr:1.5*2}}", "{{#expr:2^3}}", "{{#expr:1e2}}", "{{#expr:7 mod 2}}", "{{#expr:7 div 2}}", "{{#expr:1 round 2}}", "{{#expr:trunc 1}}",
+    "{{#expr:not 1}}", "{{#expr:-1}}", "{{#expr:1/3}}", "{{#expr:abs 1}}", "{{#expr:ceil 1.5}}", "{{#expr:floor 1.5}}", "{{#expr:exp 1}}", "{{#expr:ln 2}}", "{{#expr:sin 1}}",
+    "{{#expr:1=1}}", "{{#expr:1<2}}", "{{#expr:1 and 2}}", "{{#expr:(1)}}", "{{#ifexpr:1>2|a|b}}", "{{#ifeq:1|1.0|a|b}}", "{{#ifeq:01|1|a|b}}", "{{#switch:1|1=a|2=b|#default=c}}",
+    "{{#switch:1.0|1=a|b}}", "{{#if:1|2|3}}", "{{padleft:1|5|0}}", "{{padright:1|5|0}}", "{{padleft:x|5}}", "{{#time:Y|2001}}", "{{#time:Y-m-d|2001-02-03}}",
+    "{{#time:U|1}}", "{{#time:xrY|2001}}", "{{#time:Y|@1}}", "{{#time:Y|+1 day}}", "{{formatnum:1234.5}}", "{{formatnum:1234|R}}", "{{#titleparts:a/b/c|1|2}}",
+    "{{#titleparts:a/b/c|-1}}", "{{ns:1}}", "{{ns:-1}}", "{{plural:2|a|b}}", "{{PLURAL:1|a|b}}", "{{lc:1}}", "{{ucfirst:1}}", "{{urlencode:1}}", "{{anchorencode:1}}",
+    "{{fullurl:1|2=3}}", "{{localurl:1}}", "{{#tag:ref|1|name=2}}", "{{#tag:gallery|Image:x.jpg|widths=1}}", "{{#language:1}}", "{{int:1}}", "{{#rel2abs:../1}}",
+    "{{#iferror:{{#expr:1/0}}|1|2}}", "{{#ifexist:1|2|3}}", "{{#lst:1|2}}", "{{DEFAULTSORT:1}}", "{{DISPLAYTITLE:1}}", "{{NUMBEROFARTICLES:1}}", "{{PAGESINCATEGORY:1}}",
+    "{{CURRENTYEAR:1}}", "{{REVISIONID:1}}", "{{PAGENAME:1}}", "{{NAMESPACE:1}}", "{{TALKPAGENAME:1}}", "{{grammar:1|2}}", "{{gender:1|a|b}}", "{{#dateformat:1 January 2001}}",
+    "{{subst:1}}", "{{msg:1}}", "{{:1}}", "{{1}}", "{{#expr:1}}{{#expr:2}}", "{{padleft:{{#expr:10^3}}|2}}", "{{#expr:10^4500}}", "{{#expr:2^15000}}", "{{#expr:9999^1100}}",
+    "{{#expr:1e4500}}", "{{#expr:1e300*1e300}}", "{{#expr:trunc 1e400}}", "{{#expr:floor(1e308*10)}}", "{{#expr:10^4500 mod 7}}", "{{formatnum:{{#expr:10^4500}}}}",
+]
+
+
+def longdigit_pool():
+    pool = list(LONGDIGIT_EXTRA)
+    for name, ctx in ATTR_CONTEXTS:
+        pool.append(ctx % {"a": " %s=1" % name, "v": "1"})
+        pool.append(ctx % {"a": ' %s="1"' % name, "v": "1"})
+    for a in ATTRS + PAGES_ATTRS:
+        pool.append("<div%s>x</div>" % a)
+        pool.append("<pages%s />" % a)
+    for b in IMAGEMAP_BODIES:
+        pool.append("<imagemap>%s</imagemap>" % b)
+    for b in TIMELINE_BODIES:
+        pool.append("<timeline>%s</timeline>" % b)
+    for b in GALLERY_BODIES:
+        pool.append("<gallery>%s</gallery>" % b)
+    pool += ENTITIES + LINKS + TEMPL_CALLS + [m for m in MARKUP if _DIGITS_RE.search(m)] + [w for w in WORDS if _DIGITS_RE.search(w)]
+    seen = set()
+    out = []
+    for p in pool:
+        if p not in seen and _DIGITS_RE.search(p):
+            seen.add(p)
+            out.append(p)
+    return out
+
+
+def longdigit_values(tier):
+    """digit strings just above the interpreter's int<->str limit (and at it, which must still convert)"""
+    n = INT_MAX_STR_DIGITS
+    if tier == "quick":
+        return ["9" * (n + 1)]
+    return ["9" * (n + 1), "1" + "0" * n, "9" * n, "0" * 5 + "9" * (n + 1), "9" * 4990]
+
+
+def longdigit_family(tier):
+    """(raw, position description) for every digit-run position of every pool construct x every long value (one position at a time)"""
+    out = []
+    seen = set()
+    for p in longdigit_pool():
+        if p not in seen:
+            seen.add(p)
+            out.append(p)           # the construct itself (some compute long numbers from short texts, e.g. 10^4500)
+        runs = list(_DIGITS_RE.finditer(p))
+        for j, m in enumerate(runs):
+            for v in longdigit_values(tier):
+                raw = p[:m.start()] + v + p[m.end():]
+                if raw not in seen:
+                    seen.add(raw)
+                    out.append(raw)
+    return out
 
 
 def html_tag(rng, name=None, kind=None):
@@ -468,7 +639,7 @@ def alphabet():
 
 def gen_case(rng, i, maxlen):
     """one search input: dict(raw, lang, db, kind)"""
-    kind = rng.choice(["grammar", "grammar", "grammar", "mutation", "mutation", "soup", "deep", "repeat", "attrs", "quotes"])
+    kind = rng.choice(["grammar", "grammar", "grammar", "mutation", "mutation", "soup", "deep", "repeat", "attrs", "quotes", "reparse"])
     lang = LANGS[i % len(LANGS)]
     db = TEMPLATE_UNIVERSES[rng.randrange(len(TEMPLATE_UNIVERSES))]
     size = rng.choice([20, 60, 150, maxlen]) if maxlen <= 400 else rng.choice([60, 400, 1500, maxlen])
@@ -485,6 +656,8 @@ def gen_case(rng, i, maxlen):
             raw = quote_case(rng, maxlen)
             if rng.random() < 0.3:
                 raw = block(rng, 0, size // 4) + "\n" + raw
+        elif kind == "reparse":
+            raw, db = reparse_case(rng, min(size, 100))
         elif kind == "deep":
             raw = block(rng, 0, size // 4) + deep(rng, rng.choice([5, 20, 39, 40])) + block(rng, 0, size // 4)
         else:
